@@ -5,7 +5,10 @@ Decided from the source against ref/sparsekde_ref.py:
  R-ASSIGN    every descriptor goes to argmin of the metric to the grid; the same
              label updates the count, the weight (weight of that descriptor) and
              the member list; fit passes the descriptors with the normalised
-             descriptor weights; grid weights are read from that accumulator;
+             descriptor weights; grid weights are read from that accumulator; the
+             metric the estimator stores is called with squared=True and the configured
+             cell whether it is the default (== the periodic Euclidean reference) or
+             passed explicitly;
  NF-COV      _covariance (free space) = weighted covariance about the weighted mean
              with normalised weights and the 1 - sum p^2 correction;
              _local_population = exp(-d^2/(2 sigma^2)) * weight with minimum-image
